@@ -174,7 +174,8 @@ namespace nmtools::utl
         }
         ~vector()
         {
-            if (buffer_ && (buffer_size_ > 0)) {
+            // NOTE: a zero-capacity buffer (vector(0)) is still an allocated block
+            if (buffer_) {
                 allocator.deallocate(buffer_);
             }
         }
